@@ -12,6 +12,12 @@ Theorem C11_drop_partial :
   s_fate s' = (if s_external s then FReleased else FReaped).
 Proof. exact (fun code tr off => C11_drop_at_prompt code tr 0 off (fun _ => true)). Qed.
 
+(* never-started launched debuggee: killed and reaped (since /repo 74c6c3e the wait loops until the
+   child has really terminated), registry untouched *)
+Theorem C11_drop_never_started : forall off s, s_status s = Unload -> s_detached s = false -> s_external s = false ->
+  s_fate (drop off s) = FReaped /\ s_reg (drop off s) = s_reg s.
+Proof. exact BpMachineProofs.C11_drop_never_started. Qed.
+
 Theorem C11_no_orphan_partial : forall off s, s_detached s = false -> s_external s = false ->
   (s_status s = Exited -> s_fate s = FReaped) -> s_fate (drop off s) = FReaped.
 Proof. exact C11_no_orphan_not_detached. Qed.
